@@ -95,7 +95,16 @@ def gen_case(g):
     poly = g.poly(maxexp=rng.choice([2, 3, 4]), kind=rng.choice(["int", "int", "int", "float", "complex"]))
     names = poly["names"]
     fam = rng.choice([[(), (3,), (1, 3), (2, 1, 3), (2, 1, 1)], [(), (2,), (2, 2), (1, 2)], [()]])
-    mode = rng.choice(["full", "full", "full", "partial", "partial", "error"])
+    mode = rng.choice(["full", "full", "full", "partial", "partial", "error", "swap"])
+    if mode == "swap" and len(names) >= 2:
+        # every indeterminate replaced by another one (q0 <-> q1, cyclic shifts)
+        perm = names[1:] + names[:1] if rng.random() < 0.5 else names[::-1]
+        kwargs = {name: {"k": "poly", "names": [other], "exps": [[1]], "coefs": [1], "kind": "int",
+                         "shape": [], "via": "attrs"} for name, other in zip(names, perm)}
+        return {"poly": poly, "args": [], "kwargs": kwargs, "labels": ["kw:swap"] * len(names),
+                "error": None, "spelling": rng.choice(["call", "numpoly.call"])}
+    if mode == "swap":
+        mode = "full"
     args, kwargs, labels = [], {}, []
     assigned = []
     for name in names:
